@@ -251,8 +251,86 @@ def _owned(repo, f: FuncInfo, owners: Set[str], depth=2) -> bool:
         and g.cls == f.cls and _owned(repo, g, owners, depth - 1) for g, c in sites)
 
 
-def _self_fact(node, fn, attr, polarity):
-    return any(ap(e) == f"self.{attr}" and pol == polarity for e, pol in facts(node, fn))
+class _Ownership:
+    """The two ownership facts of a flow (taken, resumed) in whichever representation the class uses: two bool
+    attributes, or one enum.Flag slot with `taken` / `resumed` read through properties `MEMBER in self.<slot>`."""
+
+    def __init__(self, repo, fc):
+        self.repo, self.fc = repo, fc
+        self.ev = ConstEval(repo, fc.module)
+        self.slots: Set[str] = set()
+        self.bits: Dict[str, Tuple[str, int]] = {}      # fact -> (slot, bit)
+        for fact in ("taken", "resumed"):
+            g = fc.methods.get(fact)
+            if g is None or not any((ap(d) or "") == "property" for d in g.node.decorator_list):
+                continue
+            for r in [x for x in walk(g.node) if isinstance(x, ast.Return) and isinstance(x.value, ast.Compare)]:
+                c = r.value
+                if len(c.ops) == 1 and isinstance(c.ops[0], ast.In) and (ap(c.comparators[0]) or "").startswith("self."):
+                    v = self.ev.ev(c.left)
+                    if isinstance(v, EnumVal) and isinstance(v.value, int):
+                        slot = ap(c.comparators[0]).split(".", 1)[1]
+                        self.slots.add(slot)
+                        self.bits[fact] = (slot, v.value)
+
+    def _mask(self, node) -> Optional[int]:
+        v = self.ev.ev(node)
+        if isinstance(v, EnumVal) and isinstance(v.value, int):
+            return v.value
+        return v if isinstance(v, int) and not isinstance(v, bool) else None
+
+    def _decode(self, slot, value: int) -> Dict[str, bool]:
+        return {f: bool(value & bit) for f, (s_, bit) in self.bits.items() if s_ == slot}
+
+    def effect(self, st) -> Dict[str, bool]:
+        """What a statement stores into the ownership facts of `self`."""
+        out: Dict[str, bool] = {}
+        if isinstance(st, ast.Assign) and len(st.targets) == 1:
+            p_ = ap(st.targets[0]) or ""
+            if p_ in ("self.taken", "self.resumed") and isinstance(st.value, ast.Constant) and isinstance(st.value.value, bool):
+                out[p_.split(".")[1]] = st.value.value
+            elif p_.startswith("self.") and p_.split(".", 1)[1] in self.slots:
+                m = self._mask(st.value)
+                if m is not None:
+                    out.update(self._decode(p_.split(".", 1)[1], m))
+        elif isinstance(st, ast.AugAssign):
+            p_ = ap(st.target) or ""
+            if p_.startswith("self.") and p_.split(".", 1)[1] in self.slots:
+                slot = p_.split(".", 1)[1]
+                if isinstance(st.op, ast.BitOr):
+                    m = self._mask(st.value)
+                    if m is not None:
+                        out.update({f: True for f, v in self._decode(slot, m).items() if v})
+                elif isinstance(st.op, ast.BitAnd) and isinstance(st.value, ast.UnaryOp) and isinstance(st.value.op, ast.Invert):
+                    m = self._mask(st.value.operand)
+                    if m is not None:
+                        out.update({f: False for f, v in self._decode(slot, m).items() if v})
+        return out
+
+    def facts(self, node, fn) -> Dict[str, bool]:
+        """Ownership facts that dominate `node`."""
+        out: Dict[str, bool] = {}
+        for e, pol in facts(node, fn):
+            p_ = ap(e)
+            if p_ in ("self.taken", "self.resumed"):
+                out[p_.split(".")[1]] = pol
+            elif isinstance(e, ast.Compare) and len(e.ops) == 1:
+                l, r, op = e.left, e.comparators[0], e.ops[0]
+                if isinstance(op, (ast.Eq, ast.NotEq, ast.Is, ast.IsNot)):
+                    for a, b in ((l, r), (r, l)):
+                        pa = ap(a) or ""
+                        if pa.startswith("self.") and pa.split(".", 1)[1] in self.slots:
+                            m = self._mask(b)
+                            if m is not None and (isinstance(op, (ast.Eq, ast.Is)) == pol):
+                                out.update(self._decode(pa.split(".", 1)[1], m))
+                elif isinstance(op, (ast.In, ast.NotIn)):
+                    pr = ap(r) or ""
+                    if pr.startswith("self.") and pr.split(".", 1)[1] in self.slots:
+                        m = self._mask(l)
+                        if m is not None:
+                            present = isinstance(op, ast.In) == pol
+                            out.update({f: present for f, v in self._decode(pr.split(".", 1)[1], m).items() if v})
+        return out
 
 
 def _queue_puts(node) -> List[ast.Call]:
@@ -274,8 +352,10 @@ def r2(ctx):
                 "put on the proxy queue")
     fc = repo.cls("HippoHTTPFlow", FLOW)
     family = {c.qual for c in repo.subclasses(fc)}
+    own = _Ownership(repo, fc)
     n = 0
-    for attr in ("taken", "resumed"):
+    owners = set(FLOW_OWNERS) | {f"{fc.name}.{a}.setter" for a in ("taken", "resumed")}
+    for attr in sorted({"taken", "resumed"} | own.slots):
         for f, st in store_index(repo).get(attr, []):
             if st.kind not in ("assign", "augassign", "del"):
                 continue
@@ -283,14 +363,15 @@ def r2(ctx):
             if base in ("self", "cls") and (f.cls is None or f.cls.qual not in family):
                 continue
             n += 1
-            ctx.ob(R, f"{f.qual}: {st.path} written by an owner", _owned(repo, f, FLOW_OWNERS), ctx.w(f, st.node),
+            ctx.ob(R, f"{f.qual}: {st.path} written by an owner", _owned(repo, f, owners), ctx.w(f, st.node),
                    f"flow ownership flag written outside {sorted(FLOW_OWNERS)}")
     ctx.floor(R, "taken/resumed stores", n, 3)
 
     def store_nodes(cfg, attr, val):
-        return {x for x in cfg.nodes if x.kind == "stmt" and isinstance(x.ast, ast.Assign)
-                and isinstance(x.ast.value, ast.Constant) and x.ast.value.value is val
-                and any(ap(t) == f"self.{attr}" for t in x.ast.targets)}
+        return {x for x in cfg.nodes if x.kind == "stmt" and x.ast is not None and own.effect(x.ast).get(attr) is val}
+
+    def _self_fact(node, fn, attr, polarity):
+        return own.facts(node, fn).get(attr) is polarity
 
     take = inlined_funcinfo(repo, repo.fn("HippoHTTPFlow.take"))
     cfg = CFG(take.node)
